@@ -671,3 +671,60 @@ def T4(ctx, rule="T4"):
     ctx.counts[rule] = n
     if n < 1:
         ctx.unverifiable(rule, "floor", "-", "expected a filter_map behind interruptible_with in the tracking function")
+
+
+def A1(ctx, rule="A1"):
+    """No dropped futures on the streaming paths: a call that produces a future
+    (crate-local async fn, tokio send/read/write, ...) inside a body reachable from
+    a streaming entry point must be awaited, polled, returned, stored or passed on.
+    A future that is only dropped never runs: a done-send or a release that is
+    written but not awaited silently does nothing."""
+    m, fb, fl = ctx.model, ctx.fb, ctx.model.flow
+    bodies = set()
+    for e in m.entries:
+        bodies |= m.reach(e["id"])
+    n = 0
+    for bid in sorted(bodies):
+        b = fb.bodies[bid]
+        if b.kind != "coroutine":
+            continue
+        for bb, t in b.calls():
+            dty = t["dest"]["ty"]
+            c = t.get("callee") or {}
+            if not ("Future<Output" in dty or dty.startswith("impl futures::Future") or dty.startswith("impl std::future::Future")):
+                continue
+            if t["sp"].get("exp") and t["sp"].get("desugar") == "Await":
+                continue
+            n += 1
+            dl = t["dest"]["l"]
+            used = False
+            for bb2, si2, s2 in b.stmts():
+                if s2["k"] != "assign":
+                    continue
+                rv = s2["rv"]
+                ops = []
+                if rv["k"] in ("use", "cast", "repeat"):
+                    ops = [rv["op"]]
+                elif rv["k"] == "agg":
+                    ops = rv["ops"]
+                elif rv["k"] in ("ref", "rawptr", "copy_for_deref"):
+                    if rv["pl"]["l"] == dl:
+                        used = True
+                for o in ops:
+                    if o["k"] in ("copy", "move") and o["pl"]["l"] == dl:
+                        used = True
+            for bb2, t2 in b.calls():
+                if callee_path(t2) in ("std::mem::drop", "std::mem::forget"):
+                    continue
+                for a in t2["args"]:
+                    if a["k"] in ("copy", "move") and a["pl"]["l"] == dl:
+                        used = True
+            if dl == 0:
+                used = True
+            name = c.get("path") or "?"
+            ctx.check(used, rule, "awaited|%s|%s" % (short(b.id), name.split("::")[-1]), m.where(b, bb),
+                      "the future returned by %s is awaited / passed on" % name,
+                      "the future returned by %s is created and dropped without being awaited: the operation never happens" % name)
+    ctx.counts[rule] = n
+    if n < 8:
+        ctx.unverifiable(rule, "floor", "-", "expected future-producing calls on the streaming paths, found %d" % n)
